@@ -148,6 +148,12 @@ func checkDecode(r *ev.Run, c *ev.Case, text, shape string) {
 			return
 		}
 	}
+	// the version the text declares must itself be the supported one: a null (or otherwise non-numeric) version field declares none
+	// (judged only when the field occurs once: with duplicated fields "the" declared version is ambiguous)
+	if v := strings.TrimSpace(string(m["ver"])); v != "1" && strings.Count(strings.ToLower(text), `"ver"`) == 1 {
+		r.Violation(c, "decode-accepts-without-declared-supported-version", fmt.Sprintf("text=%q declares ver=%s but decoded to version %d", text, v, k.Version), caseRec{Text: text, What: shape})
+		return
+	}
 	// what was accepted must be encodable again and round-trip
 	t2, err2 := k.Marshal()
 	if err2 != nil {
